@@ -283,6 +283,11 @@ class SimpleJSONRPCDispatcher(SimpleXMLRPCDispatcher, object):
         """
         # Parse the request
         try:
+            if not data:
+                # An empty body isn't a JSON text (jsonrpclib.loads() would
+                # silently accept it, as the response to a notification)
+                raise ValueError("No request data")
+
             request = jsonrpclib.loads(data, self.json_config)
         except Exception as ex:
             # Parsing/loading error
